@@ -775,9 +775,6 @@ var Prop = &fw.Prop{
 		"cfgValuesBeforeCas": func(c fw.Case, out []string, msg string) bool {
 			return strings.HasPrefix(msg, "refused-write-changed-values:") && isCfg(kindOf(c))
 		},
-		"cfgSideMapShared": func(c fw.Case, out []string, msg string) bool {
-			return strings.HasPrefix(msg, "side-map:") && isCfg(kindOf(c))
-		},
 		"v3txCancelPanics": func(c fw.Case, out []string, msg string) bool {
 			return strings.HasPrefix(msg, "cancel-crash:") && kindOf(c) == "tx3" && scriptHas(c, "store.cancel")
 		},
